@@ -13,6 +13,7 @@ verus! {
 //@include shims/digest.rs
 //@include shims/codecs.rs
 //@include shims/k256.rs
+//@include shims/strpath.rs
 //@include spec/bip32.rs
 //@const HARDENED_KEY_OFFSET @ src/keypair/mod.rs
 //@const XPRIV_VERSION_BYTE @ src/keypair/mod.rs
@@ -47,6 +48,8 @@ impl ExtendedPrivateKey {
 //@fn ExtendedPrivateKey::from_string_impl
 //@wrapper ExtendedPrivateKey::from_string @ src/keypair/extended_private_key.rs = ExtendedPrivateKey::from_string_impl
 //@fn ExtendedPrivateKey::parse_str_to_idx
+//@fn ExtendedPrivateKey::derive_from_path_impl
+//@wrapper ExtendedPrivateKey::derive_from_path @ src/keypair/extended_private_key.rs = ExtendedPrivateKey::derive_from_path_impl
 //@fn ExtendedPrivateKey::get_private_key
 //@fn ExtendedPrivateKey::get_public_key
 //@fn ExtendedPrivateKey::get_chain_code
